@@ -251,3 +251,59 @@ Proof.
         apply Forall_app. split; [constructor; [intros E; discriminate E|constructor]|].
         apply marks_ok; [exact blind_QUERY|apply utf8_encode_bytes; exact Uq].
 Qed.
+
+(* ---- no comma before the fragment: the crate says NoComma, the Fetch processor returns failure ---- *)
+Lemma fcbf_loop_none s : forall rest i, fcbf_loop s i rest = Ok None -> ~ In 44 (before_hash rest).
+Proof.
+  induction rest as [|byte rest IH]; intros i; cbn [fcbf_loop before_hash]; [intros _ []|].
+  change T_DU_COMMA with 44. change T_DU_HASH with 35.
+  destruct (byte =? 44) eqn:E1.
+  - unfold slice_to, slice_from. destruct (is_char_boundary s i); cbn [bind]; [|discriminate].
+    destruct (is_char_boundary s (i + 1)); cbn [bind]; discriminate.
+  - destruct (byte =? 35); [intros _ []|]. intros H [Hin|Hin]; [lia|exact (IH _ H Hin)].
+Qed.
+
+Lemma collect_until_comma_none X : ~ In 44 X -> collect_until_comma X = (X, None).
+Proof.
+  induction X as [|c r IH]; intros Hn; [reflexivity|]. cbn [collect_until_comma].
+  destruct (c =? 44) eqn:Ec; [apply N.eqb_eq in Ec; exfalso; apply Hn; left; exact Ec|].
+  rewrite IH; [reflexivity|]. intros Hin. apply Hn. right. exact Hin.
+Qed.
+
+Lemma in_clean_body x l : In x (clean_body l) -> In x (before_hash l).
+Proof. unfold clean_body. intros H. apply filter_In in H. tauto. Qed.
+
+Theorem no_comma_is_fetch_failure dbg hp ho hd s rem u : usv_list s ->
+  parse_scheme CUrlParser (input_new_trim_c0 s) = Some (s_data, rem) -> inp_split_prefix_char 47 rem = None ->
+  parse_url dbg hp ho hd None None s = POk u ->
+  find_comma_before_fragment (utf8_encode rem) = Ok None ->
+  Fetch.process (url_without_fragment u) = None.
+Proof.
+  intros Hs Hp H47 Hu HB.
+  destruct (parse_opaque_explicit dbg hp ho hd s s_data rem u Hs Hp scheme_type_of_data H47 Hu) as [Hur ->].
+  rewrite opaque_url_without_fragment.
+  pose proof (fcbf_loop_none _ _ _ HB) as Hn. rewrite before_hash_utf8 in Hn by exact Hur.
+  assert (Hn' : ~ In 44 (clean_body rem)).
+  { intros Hin. apply Hn. apply in_utf8_ascii; [lia|]. apply in_clean_body. exact Hin. }
+  pose proof (cbb_clean rem) as Hcl. pose proof (cbb_rest_head rem) as Hhd.
+  assert (Ubc : usv_list (cbb_chars rem)) by (apply usv_cbb_chars; exact Hur).
+  assert (Hx : ~ In 44 (opaque_of rem ++ qf_qtext (pqf_q STNotSpecial (cbb_rest rem)))).
+  { unfold opaque_of. intros Hin. apply in_app_or in Hin.
+    destruct (cbb_rest rem) as [|c r'] eqn:Ecr.
+    - unfold pqf_q in Hin. rewrite inp_next_nil in Hin. cbn [qf_qtext] in Hin. destruct Hin as [Hin|[]].
+      revert Hin. apply encode_no_comma; [exact Ubc|]. rewrite <- Hcl. exact Hn'.
+    - destruct Hhd as [_ Htn]. unfold pqf_q in Hin. rewrite inp_next_cons in Hin by exact Htn.
+      destruct Hcl as [[-> Hcl]|[-> Hcl]].
+      + change (35 =? 63) with false in Hin. cbn [qf_qtext] in Hin. destruct Hin as [Hin|[]].
+        revert Hin. apply encode_no_comma; [exact Ubc|]. rewrite <- Hcl. exact Hn'.
+      + change (63 =? 63) with true in Hin. cbn [qf_qtext] in Hin.
+        assert (Ur' : usv_list r').
+        { pose proof (usv_cbb_rest rem Hur) as Hy. rewrite Ecr in Hy. apply usv_cons in Hy. tauto. }
+        rewrite Hcl in Hn'. destruct Hin as [Hin|[Hin|Hin]].
+        * revert Hin. apply encode_no_comma; [exact Ubc|]. intros H. apply Hn'. apply in_or_app. left. exact H.
+        * discriminate Hin.
+        * unfold query_of in Hin. revert Hin. apply encode_no_comma; [apply usv_query_chars; exact Ur'|].
+          intros H. apply Hn'. apply in_or_app. right. right. exact H. }
+  unfold Fetch.process, opaque_pre. rewrite <- !app_assoc. change (s_data ++ [58] ++ ?x) with ([100;97;116;97;58] ++ x).
+  cbn [app remove_data_colon]. rewrite (collect_until_comma_none _ Hx). reflexivity.
+Qed.
